@@ -13,7 +13,7 @@ for k, n in c.most_common():
             pre = None
             print('   event:', {a: ev[a] for a in ('op', 'dst', 'src', 'argn', 'topo', 'k', 'var', 'den', 'mod', 'v', 'w', 'vs', 'cs', 'gs', 'rb', 'ri', 'rr', 'rc', 'exc', 'obs') if ev.get(a) not in ([], '', None)})
             for i, p in enumerate(ev['post']):
-                if p['alive']: print('   post[%d]: n=%d %s H=%s V=%s st=%s' % (i + 1, p['n'], p['topo'], [(r['k'], r['v']) for r in p['H']], [(r['k'], r['v']) for r in p['V']], p['st']))
+                if p['alive']: print('   post[%d]: n=%d %s H=%s V=%s st=%s' % (i + 1, p['n'], p['topo'], [(r['k'], r['v']) for r in p['H']], [(r['k'], r['v']) for r in p['V']], p.get('st', '')))
             # previous state of dst: look back in program events? print program prefix
             idx = d['event_index']
         print('   program:', [(o['op'], o['dst'], o['src']) for o in d['program']][:d['event_index'] + 1][-6:])
